@@ -406,7 +406,8 @@ SPECS = [
       (("Node",), "g", lambda e, tr, fld: [[e[fld][0][0] + 16]] if e.get("k") == "id" and len(e[fld]) == 1 and len(e[fld][0]) == 1 else None)],  # another terminal
      (("Node",), later(lambda e, tr: e.get("n") == 0 and e.get("d", 0) > 0, ("Node", "Close")))),
     ("ScopeTrace", "js", (), rec_scope,                                                                         # C04
-     [(("Vars",), "obs", scope_obs), (("Reparse",), "obs", scope_obs), (("Parse",), "ok", flip)],
+     [(("Vars",), "obs", scope_obs), (("Reparse",), "obs", scope_obs), (("Parse",), "ok", flip),
+      (("Vars",), "keys", lambda e, tr, fld: (e[fld] + ["zz"]) if e.get("xkeys") else None)],      # a property key more than the source has
      None),
     ("PrinterTrace", "js", (), rec_printer,                                                                     # C05
      [(("Trees",), "equal", flip), (("Print2",), "same", flip), (("Literals",), "missing", setv([1]))],
@@ -441,7 +442,8 @@ SPECS = [
       (("ParseUint", "ParseInt"), "n", bump())],
      None),
     ("PositionTrace", "text", (), rec_record("position", 200, "-n", 30, "-offs", 3, "-m", 10, "-seed", 7, skip=position_skip),   # C15
-     [(("Pos",), "line", bump()), (("Pos",), "col", lambda e, tr, fld: e[fld] + 1000)],
+     [(("Pos",), "line", bump()), (("Pos",), "col", lambda e, tr, fld: e[fld] + 1000),
+      (("ErrPos",), "same", lambda e, tr, fld: False if e.get(fld) is True else None)],              # position depends on earlier Err() calls
      None),
     ("HelpersTrace", "text", (), rec_record("helpers", 300, "-n", 100, "-seed", 7),                             # C16
      [(("Number",), "r", bump()), (("IsAllWhitespace",), "r", flip), (("ToLower",), "r", last_elem(lambda c: c ^ 1))],
